@@ -36,6 +36,12 @@ except Exception:   # noqa
     HAVE_PASTE = False
 
 
+FALLBACK_SETTINGS = {"workers": "WEB_CONCURRENCY", "bind": "PORT", "forwarded_allow_ips": "FORWARDED_ALLOW_IPS",
+                     "sendfile": "SENDFILE"}
+FALLBACKS = {"1": {"WEB_CONCURRENCY": "7", "PORT": "8011", "FORWARDED_ALLOW_IPS": "10.9.9.1", "SENDFILE": "1"},
+             "2": {"WEB_CONCURRENCY": "9", "PORT": "8012", "FORWARDED_ALLOW_IPS": "10.9.9.2", "SENDFILE": "0"}}
+
+
 def _imports():
     if REPO not in sys.path:
         sys.path.insert(0, REPO)
@@ -110,7 +116,8 @@ def family_values(S, wd, gutil):
     if v == "validate_dict":
         return {"A": ({"a": "1"}, None), "B": ({"b": "2"}, None), "bad": ([1], None)}
     if v == "validate_chdir":
-        return {"A": (d("dirA"), [d("dirA")]), "B": (d("dirB"), [d("dirB")]),
+        # on the command line pick A is spelled relative to the start directory (the driver runs in wd)
+        return {"A": (d("dirA"), ["dirA"]), "B": (d("dirB"), [d("dirB")]),
                 "bad": (d("no_such_dir"), [d("no_such_dir")])}
     if v in ("_validate_callable", "validate_post_request"):
         return {"A": ("hook", None), "B": ("hook", None), "bad": (5, None)}
@@ -415,6 +422,9 @@ def run_case(con, case, mods):
                 res["reloaded"] = True
             v = app.cfg.settings[name].get()
             res["obs"] = con.labels(v)
+            # the value the server works with: the Config accessor of that name (a property for some settings)
+            # (only for the settings with a stand-in variable: other accessors import classes, resolve users, ...)
+            res["used"] = nrepr(getattr(app.cfg, name) if name in FALLBACK_SETTINGS else v)[:200]
             res["detail"] = nrepr(v)[:120]
         except SystemExit as e:
             res["fail"] = True
@@ -444,6 +454,10 @@ def main():
     wd = os.getcwd()
     for k in ("GUNICORN_CMD_ARGS", "WEB_CONCURRENCY", "PORT", "FORWARDED_ALLOW_IPS", "SENDFILE"):
         os.environ.pop(k, None)
+    # the stand-in variables of the few settings that have one, present from before gunicorn is imported
+    fbset = os.environ.get("VERIF_FBSET")
+    if fbset:
+        os.environ.update(FALLBACKS[fbset])
     real_stdout = sys.stdout
     sys.stderr = io.StringIO()            # validators print warnings (ssl_version)
     prepare_dir(wd)
